@@ -136,13 +136,14 @@ pub fn record(a: &Args) -> Report {
           sel = m[..t0 as usize].to_vec();
         }
         1 => {
-          // all of them plus duplicates interleaved
+          // all of them with earlier reports repeated in between: m0 m1 m0 m2 m1 m3 ... — a repeated
+          // report that is NOT adjacent to its original sits among the first t
           let mut m = main.clone();
           m.shuffle(&mut rng);
           for (i, c) in m.iter().enumerate() {
             sel.push(*c);
-            if i % 2 == 0 {
-              sel.push(m[rng.gen_range(0..=i)]);
+            if i >= 1 {
+              sel.push(m[i - 1]);
             }
           }
         }
@@ -658,12 +659,13 @@ pub fn cipher_check(a: &Args) -> Report {
       if la >= 1 {
         aux[0] = aux[0].wrapping_add(r as u8 + 1);
       }
-      // same length, different content every other group (isolates the XOR question)
-      let aux = if g % 3 == 0 && r > 0 {
+      // same length, content differing in exactly one position (first / middle / last byte),
+      // every other group: isolates the XOR question from length effects
+      let aux = if g % 2 == 0 && r > 0 {
         let mut b = cl[0].cfg.aux.clone().unwrap();
         let n = b.len();
-        b[n - 1] ^= 0x55;
-        b[0] ^= 0x01;
+        let posn = match (g / 2 + r as u64) % 3 { 0 => 0, 1 => n / 2, _ => n - 1 };
+        b[posn] ^= 0x55;
         b
       } else {
         aux
